@@ -368,6 +368,7 @@ let run_ksim (dump : Stdlib.String.t list) (hist : Stdlib.String.t) (out : Buffe
         match kind with
         | 'd' | 'u' | 'r' | 'T' ->
           let code = n_of_int (int_of_string rest) in
+          if os_from_u16 code = None then () else
           let ev = (match kind with 'd' -> IPress code | 'u' -> IRelease code | 'r' -> IRepeat code | _ -> ITap code) in
           let (k', evs) = unwrap (k_input cfg !k ev) in
           k := k';
